@@ -99,17 +99,17 @@ theorem ginv_step (g : Graph) (op : Op) (hG : GraphInv g) (ha : admissible g op 
           omega
   | setname slot n => exact ginv_withSlot_nattach hG (fun n => by split <;> rfl)
   | setclass slot n => exact ginv_withSlot_nattach hG (fun n => by split <;> rfl)
-  | addtagref slot t r => exact ginv_withSlot_nattach hG (fun n => rfl)
+  | addtagref slot t r => exact ginv_withSlot_nattach hG (fun n => by split <;> rfl)
   | insertvg slot slot2 =>
     simp only [gstep]
     cases alook slot2 g.slots with
     | none => exact hG
-    | some r2 => exact ginv_withSlot_nattach hG (fun n => by split; rfl; split <;> rfl)
+    | some r2 => exact ginv_withSlot_nattach hG (fun n => by split; rfl; split; rfl; split <;> rfl)
   | insertvs slot vsref =>
     simp only [gstep]
     split
     · exact hG
-    · exact ginv_withSlot_nattach hG (fun n => by split; rfl; split <;> rfl)
+    · exact ginv_withSlot_nattach hG (fun n => by split; rfl; split; rfl; split <;> rfl)
   | deltagref slot t r => exact ginv_withSlot_nattach hG (fun n => by split <;> rfl)
   | setattr slot vsref =>
     cases h1 : alook slot g.slots with
